@@ -8,7 +8,7 @@ from ..core import Disc, Subcheck, exc_detail, exc_key
 
 PROPERTY_ID = 'C11'
 LEVEL = 'exploration'
-RULE = ('the real Bus and 2-4 real DBusClientConnections (real handshake, Hello, RequestName, export) wired through '
+RULE = ('Every second service owns a hyphenated well-known name. the real Bus and 2-4 real DBusClientConnections (real handshake, Hello, RequestName, export) wired through '
         'scheduler-owned links; one or several clients each export their own instance (same object path) of a generated object (1-3 methods, argument and return signatures and '
         'values from the C01 space, implementations returning values / tuples, raising, or returning Deferreds fired or '
         'failed later by the harness); the others obtain proxies by explicit interface object, by known interface name or '
@@ -29,6 +29,11 @@ ASSUMPTIONS = ['links are FIFO byte streams; the bus offers ANONYMOUS only in th
 
 IFACE = 'org.verif.Calc'
 SVC = 'org.verif.Service'
+
+
+def _svc(i):
+    # well-known names may contain hyphens (interface and member names may not): every second service has one
+    return (SVC + str(i)) if i % 2 == 0 else 'org.verif.my-service%d' % i
 TEXTS = {'plain': 'it broke', 'unicode': 'käput €', 'empty': '', 'format': '100% {broken} %s %(x)d \\n'}
 
 
@@ -149,7 +154,7 @@ def _setup(case):
         else:
             exp.exportObject(obj)
         r = []
-        exp.requestBusName(SVC + str(ei)).addBoth(r.append)
+        exp.requestBusName(_svc(ei)).addBoth(r.append)
         if not net.run_fifo() or r != [1]:
             raise N.RigFailure('exporter %d could not take its name: %r' % (ei, r))
     return net, conns, iface, state
@@ -178,7 +183,7 @@ def _route(case, call):
 def _proxy(net, conn, iface, mode, target):
     from txdbus import interface as I
     res = []
-    svc = SVC + str(target)
+    svc = _svc(target)
     scratch = None
     if mode == 'explicit' and target % 2 == 1:
         # the declarations are handed over in a list the application goes on using for other things afterwards
